@@ -25,6 +25,7 @@ func (c *Ctx) EncodeFunc(key string) (*Enc, error) {
 	if len(fn.Blocks) == 0 {
 		return nil, fmt.Errorf("function %s has no body", key)
 	}
+	c.resetSymbols()
 	e := c.newEnc(fn, fc, key)
 	e.collect = true
 	e.relevant = nil
@@ -43,6 +44,7 @@ func (c *Ctx) EncodeFunc(key string) (*Enc, error) {
 	if err := e2.selectAxioms(); err != nil {
 		return nil, err
 	}
+	e2.preludeText = c.prelude(e2)
 	return e2, nil
 }
 
@@ -150,6 +152,7 @@ func (e *Enc) selectAxioms() error {
 
 // EncodeLemmas creates one obligation per lemma clause.
 func (c *Ctx) EncodeLemmas() (*Enc, error) {
+	c.resetSymbols()
 	e := c.newEnc(nil, nil, "lemma")
 	e.declSeen = map[string]bool{}
 	e.touched = map[string]Heap{}
@@ -187,5 +190,6 @@ func (c *Ctx) EncodeLemmas() (*Enc, error) {
 	if err := e.selectAxioms(); err != nil {
 		return nil, err
 	}
+	e.preludeText = c.prelude(e)
 	return e, nil
 }
